@@ -172,8 +172,8 @@ func c07(c *orch.Ctx) (*report.Result, error) {
 	comps := 0
 	return runSpecProp(c, specProp{
 		id: "C07", nQuick: 70, nThorough: 600, floor: 0.6,
-		gen: genFromProfile("C07", "models", nil),
-		rule: "projects drawn from the 'models' profile (3-8 structs over up to 4 packages: acyclic and self/mutually recursive references via pointers/slices, embedded structs, enums of 8 basic kinds incl. '='-style, typedef/assigned aliases, nested slices, string-keyed maps, time.Time, []byte, any, unexported and json:\"-\" fields, omitempty, decoy constants, unreachable decoy types, usage-site validators on enum-typed fields); components.schemas of both spec versions compared with the reachability closure and the per-declaration schema derived from the descriptor (DESIGN A.4/A.6). distinct = distinct type-graph shapes (per struct the multiset of field schema shapes and visibility flags; #enums; #aliases)",
+		gen:    genFromProfile("C07", "models", nil),
+		rule:   "projects drawn from the 'models' profile (3-8 structs over up to 4 packages: acyclic and self/mutually recursive references via pointers/slices, embedded structs, enums of 8 basic kinds incl. '='-style, typedef/assigned aliases, nested slices, string-keyed maps, time.Time, []byte, any, unexported and json:\"-\" fields, omitempty, decoy constants, unreachable decoy types, usage-site validators on enum-typed fields); components.schemas of both spec versions compared with the reachability closure and the per-declaration schema derived from the descriptor (DESIGN A.4/A.6). distinct = distinct type-graph shapes (per struct the multiset of field schema shapes and visibility flags; #enums; #aliases)",
 		assume: []string{"a type reachable only from hidden routes may or may not have a component (not judged); Rfc7807Error is required when a route returns plain error and otherwise not judged; enum values are compared by printed form (their JSON typing is C08's subject)"},
 		check: func(res *report.Result, sr *SpecRun, dist *report.Distincter) {
 			for _, v := range specVersions {
